@@ -16,6 +16,12 @@ def Message.Typed (m : Message) : Prop :=
   m.sourceChain.length < 256 ^ 4 ∧ m.messageId.length < 256 ^ 4 ∧ m.sourceAddress.length < 256 ^ 4 ∧
   m.contract.WF ∧ m.payloadHash.length = 32
 
+/-- the signer sets a submission names really are host values (32-byte keys and nonces, u128 weights) -/
+def Op.Typed {σ : Type} : Op σ → Prop
+  | .approve _ proof => proof.weightedSigners.Typed
+  | .rotate _ ws proof _ => ws.Typed ∧ proof.weightedSigners.Typed
+  | _ => True
+
 /-! ### C03: well-formed signer sets -/
 
 def totalWeight : List WSigner → Nat
